@@ -2,7 +2,9 @@ package main
 
 import (
 	"bufio"
+	"bytes"
 	"context"
+	"encoding/gob"
 	"encoding/json"
 	"expvar"
 	"flag"
@@ -11,6 +13,7 @@ import (
 	"runtime/pprof"
 	"strconv"
 	"strings"
+	"sync"
 	"sync/atomic"
 	"time"
 
@@ -66,6 +69,9 @@ type RunRes struct {
 	Counters []int64 // per programs[Prog].P.CountPositions()
 	NoScope  int64
 
+	// Placement (stress programs on the cluster): machine of every producer shard.
+	Placement string `json:",omitempty"`
+
 	// behaviour observables
 	Tasks      int
 	Machines   int
@@ -114,28 +120,99 @@ func spillsNow() int64 {
 	return -1
 }
 
-// attempt runs p once under cfg on a fresh session.
-func attempt(pr prog, p refeval.Program, cfg Config, res *RunRes) {
-	var (
-		sys  *vsys.System
-		opts []exec.Option
-	)
+// session is one exec.Session (with its own in-process cluster) under a configuration.
+type session struct {
+	sess *exec.Session
+	sys  *vsys.System // nil on the local executor
+	mu   sync.Mutex
+	// placed: the Worker.Run calls seen since the last takePlaced (task and machine).
+	placed []placedRun
+}
+
+type placedRun struct {
+	Op              string
+	Shard, NumShard int
+	Host            string
+}
+
+func openSession(cfg Config) *session {
+	ss := &session{}
+	var opts []exec.Option
 	if cfg.Exec == "local" {
 		opts = append(opts, exec.Local)
 	} else {
-		sys = vsys.New(cfg.Procs)
+		sys := vsys.New(cfg.Procs)
 		sys.MaxMachines = cfg.Machines
 		sys.Keepalive = [3]time.Duration{20 * time.Millisecond, 3 * time.Second, 1500 * time.Millisecond}
+		sys.Hook = func(c *vsys.Call) error {
+			if c.Method == "Worker.Run" {
+				var req struct{ Name exec.TaskName }
+				if gob.NewDecoder(bytes.NewReader(c.Body)).Decode(&req) == nil {
+					ss.mu.Lock()
+					ss.placed = append(ss.placed, placedRun{req.Name.Op, req.Name.Shard, req.Name.NumShard, c.Host})
+					ss.mu.Unlock()
+				}
+			}
+			return nil
+		}
+		ss.sys = sys
 		opts = append(opts, exec.Bigmachine(throttled{sys}))
 	}
 	opts = append(opts, exec.Parallelism(cfg.Par), exec.MaxLoad(cfg.MaxLoad))
 	if cfg.MC {
 		opts = append(opts, exec.MachineCombiners)
 	}
+	ss.sess = exec.Start(opts...)
+	return ss
+}
+
+// producerPlacement renders, for the task group that feeds the Reduce of a
+// stress program (the only group whose op name does not contain "reduce"), the
+// machine of every producer shard in shard order, machines named A, B, C by
+// first appearance: e.g. "A,A,B,C,B,C". It consumes the recorded calls.
+func (ss *session) producerPlacement() string {
+	ss.mu.Lock()
+	calls := ss.placed
+	ss.placed = nil
+	ss.mu.Unlock()
+	var hosts []string
+	for _, c := range calls {
+		if strings.Contains(c.Op, "reduce") {
+			continue
+		}
+		if hosts == nil {
+			hosts = make([]string, c.NumShard)
+		}
+		if c.Shard < len(hosts) {
+			hosts[c.Shard] = c.Host
+		}
+	}
+	names := map[string]string{}
+	out := make([]string, len(hosts))
+	for i, h := range hosts {
+		if h == "" {
+			out[i] = "?"
+			continue
+		}
+		if _, ok := names[h]; !ok {
+			names[h] = string(rune('A' + len(names)))
+		}
+		out[i] = names[h]
+	}
+	return strings.Join(out, ",")
+}
+
+// attempt runs p once under cfg in session ss. On a hang the session is left alone.
+func attempt(pr prog, p refeval.Program, cfg Config, res *RunRes, ss *session) {
+	sys, sess := ss.sys, ss.sess
 	tStart := time.Now()
 	spills0 := spillsNow()
 	atomic.StoreInt64(&noScope, 0)
-	sess := exec.Start(opts...)
+	var run0, read0, stat0, commit0 int
+	if sys != nil {
+		run0, read0, stat0, commit0 = sys.Count("Worker.Run"), sys.Count("Worker.Read"), sys.Count("Worker.Stat"), sys.Count("Worker.CommitCombiner")
+		ss.producerPlacement() // forget calls of earlier invocations
+	}
 	type ret struct {
 		out refeval.Outcome
 		err error
@@ -179,10 +256,13 @@ func attempt(pr prog, p refeval.Program, cfg Config, res *RunRes) {
 	res.FailureFree, res.WhyNotFF = true, ""
 	if sys != nil {
 		res.Machines = len(sys.Hosts())
-		res.WorkerRun = sys.Count("Worker.Run")
-		res.WorkerRead = sys.Count("Worker.Read")
-		res.WorkerStat = sys.Count("Worker.Stat")
-		res.Commit = sys.Count("Worker.CommitCombiner")
+		res.WorkerRun = sys.Count("Worker.Run") - run0
+		res.WorkerRead = sys.Count("Worker.Read") - read0
+		res.WorkerStat = sys.Count("Worker.Stat") - stat0
+		res.Commit = sys.Count("Worker.CommitCombiner") - commit0
+		if pr.Stress {
+			res.Placement = ss.producerPlacement()
+		}
 		if k := sys.Killed(); len(k) > 0 {
 			res.FailureFree, res.WhyNotFF = false, fmt.Sprintf("machines lost: %v", k)
 		} else if r.err == nil && res.WorkerRun != res.Tasks {
@@ -194,10 +274,8 @@ func attempt(pr prog, p refeval.Program, cfg Config, res *RunRes) {
 			res.FailureFree, res.WhyNotFF = false, "task "+s
 		}
 	}
-	tRun := time.Now()
-	sess.Shutdown()
 	if os.Getenv("C04_TIMING") != "" {
-		fmt.Fprintf(os.Stderr, "timing %s %s: start+run=%v shutdown=%v\n", pr.Name, cfg.ID(), tRun.Sub(tStart), time.Since(tRun))
+		fmt.Fprintf(os.Stderr, "timing %s %s: run=%v\n", pr.Name, cfg.ID(), time.Since(tStart))
 	}
 	out := r.out
 	res.NRows = len(out.Rows)
@@ -234,10 +312,7 @@ func runSpec(idx int, rs RunSpec, emit func(RunRes)) {
 	p := pr.P
 	p.Count = true
 	p.Pragma, p.PragmaPos = rs.Cfg.Pragma, rs.Cfg.PragPos
-	phases := []string{""}
-	if pr.Cache {
-		phases = []string{"cold", "warm"}
-	}
+	phases := phasesOf(pr)
 	var retried []string
 	for try := 1; try <= 3; try++ {
 		var results []RunRes
@@ -250,13 +325,26 @@ func runSpec(idx int, rs RunSpec, emit func(RunRes)) {
 			defer os.RemoveAll(dir)
 		}
 		again := false
-		for _, ph := range phases {
+		var ss *session
+		for k, ph := range phases {
+			// A stress program runs several invocations in one session (phases
+			// "s<session>i<invocation>"); everything else gets a fresh session per phase.
+			if ss == nil || !pr.Stress || strings.HasSuffix(ph, "i0") {
+				if ss != nil {
+					ss.sess.Shutdown()
+				}
+				ss = openSession(rs.Cfg)
+			}
 			res := RunRes{Idx: idx, Prog: rs.Prog, Cfg: rs.Cfg, Phase: ph, Attempts: try, Retried: retried}
 			t0 := time.Now()
-			attempt(pr, p, rs.Cfg, &res)
+			attempt(pr, p, rs.Cfg, &res, ss)
 			res.Ms = time.Since(t0).Milliseconds()
 			results = append(results, res)
-			if res.Hung || res.Err != "" {
+			if res.Hung {
+				ss = nil // may be wedged: leave it alone
+				break
+			}
+			if res.Err != "" && !pr.Stress {
 				break
 			}
 			if !res.FailureFree {
@@ -264,6 +352,10 @@ func runSpec(idx int, rs RunSpec, emit func(RunRes)) {
 				retried = append(retried, res.WhyNotFF)
 				break
 			}
+			_ = k
+		}
+		if ss != nil {
+			ss.sess.Shutdown()
 		}
 		// Only failure-free runs are judged: after a (spurious) machine loss or
 		// a repeated task the whole spec is run again, up to 3 times.
